@@ -306,6 +306,68 @@ func TestVerifC16(t *testing.T) {
 		}
 		o.Case("b:"+h, len(bs) > 0)
 
+		// ---- (b2) integer payloads around every internal size boundary of the decoder (1 byte,
+		// 8 bytes = uint64, 32 bytes = the big.Int fast path, 55/56 = short/long header), canonical
+		// and with leading zero bytes, decoded as *big.Int, big.Int in a struct, uint64
+		{
+			sz := r.Pick(1, 2, 7, 8, 9, 31, 32, 33, 34, 55, 56, 57, 64, 300)
+			payload := r.Bytes(sz)
+			zeros := 0
+			if r.Chance(50) {
+				zeros = 1 + r.Intn(2)
+				for z := 0; z < zeros && z < sz; z++ {
+					payload[z] = 0
+				}
+			} else if payload[0] == 0 {
+				payload[0] = 1
+			}
+			ib, _ := EncodeToBytes(payload) // the string encoding of exactly these bytes
+			ih := vfHex(ib)
+			vfGuard(o, "panic-decode", func() string { return ih }, func() {
+				bi := new(big.Int)
+				if err := DecodeBytes(ib, bi); err != nil {
+					o.Op(model, "decbig "+ih, "err")
+				} else {
+					o.Op(model, "decbig "+ih, "ok "+bi.String())
+					if re, _ := EncodeToBytes(bi); !bytes.Equal(re, ib) {
+						o.Viol("noncanonical-integer-accepted", fmt.Sprintf("input=%x (payload %d bytes, %d leading zeros) decoded to %s which encodes as %x", ib, sz, zeros, bi.String(), re))
+					}
+				}
+				var u64 uint64
+				if err := DecodeBytes(ib, &u64); err != nil {
+					o.Op(model, "decu 8 "+ih, "err")
+				} else {
+					o.Op(model, "decu 8 "+ih, fmt.Sprintf("ok %d", u64))
+					if re, _ := EncodeToBytes(u64); !bytes.Equal(re, ib) {
+						o.Viol("noncanonical-integer-accepted", fmt.Sprintf("input=%x decoded to uint64 %d which encodes as %x", ib, u64, re))
+					}
+				}
+				// the same integer as a struct field: list [A=1, B=-, C=<payload>]
+				body := append([]byte{0x01, 0x80}, ib...)
+				lst, _ := EncodeToBytes(RawValue(nil))
+				_ = lst
+				var hdr []byte
+				if len(body) < 56 {
+					hdr = []byte{0xc0 + byte(len(body))}
+				} else if len(body) < 256 {
+					hdr = []byte{0xf8, byte(len(body))}
+				} else {
+					hdr = []byte{0xf9, byte(len(body) >> 8), byte(len(body))}
+				}
+				sb := append(hdr, body...)
+				var sv2 vfS
+				if err := DecodeBytes(sb, &sv2); err != nil {
+					o.Op(model, "decS "+vfHex(sb), "err")
+				} else {
+					o.Op(model, "decS "+vfHex(sb), fmt.Sprintf("ok %d %s %s -", sv2.A, vfHex(sv2.B), sv2.C.String()))
+					if zeros > 0 {
+						o.Viol("noncanonical-integer-accepted", fmt.Sprintf("struct field big.Int with %d leading zeros accepted: %x", zeros, sb))
+					}
+				}
+			})
+			o.Stat(fmt.Sprintf("intpayload.%dB.zeros%d", sz, zeros))
+		}
+
 		// ---- (c) integers and typed values: encode and decode back
 		var n64 uint64
 		switch r.Intn(5) {
